@@ -286,6 +286,13 @@ func (x *Exec) evalBuiltin(name string, n *ast.CallExpr, st *State) (Val, *State
 		m := mv.(Mp)
 		k := encodeKey(kv)
 		had := tSel(m.Has, k)
+		if id, ok := ast.Unparen(n.Args[0]).(*ast.Ident); ok {
+			if pv, ok := x.info.Uses[id].(*types.Var); ok && x.depth == 0 && (x.isParam(pv) || (x.sig.Recv() != nil && pv == x.sig.Recv())) {
+				if x.contract == nil || !x.contract.Modifies[id.Name] {
+					c.oblige("frame:"+id.Name, "", st.pc, tFalse, n.Pos(), "delete from the caller's map "+id.Name+" (maps are shared with the caller; not declared in modifies)")
+				}
+			}
+		}
 		nm := Mp{tSto(m.Has, k, tFalse), m.Val, tIte(had, tSub(m.Len, "1"), m.Len), m.K, m.V, m.KS, m.Nil}
 		return Tup{}, x.assign(n.Args[0], nm, st)
 	case "new":
@@ -376,6 +383,30 @@ func (x *Exec) evalCopy(n *ast.CallExpr, st *State) (Val, *State) {
 		panic(unsupported("copy from %T", sv))
 	}
 	cnt := c.define("copyn", SInt, tIte(tLe(dst.Len, src.Len), dst.Len, src.Len))
+	// frame: copying into storage a slice parameter held on entry must stay outside its original contents (unless `modifies`)
+	if x.depth == 0 && x.entry != nil {
+		if da, ok := dst.Arr.(Sc); ok {
+			for eobj, pev := range x.entry.vars {
+				ppv, ok := eobj.(*types.Var)
+				if !ok || !x.isParam(ppv) {
+					continue
+				}
+				pes, ok := pev.(Sl)
+				if !ok {
+					continue
+				}
+				pa, ok := pes.Arr.(Sc)
+				if !ok || !c.isArrayConst(pa.T) || !containsToken(da.T, pa.T) {
+					continue
+				}
+				if x.contract != nil && x.contract.Modifies[ppv.Name()] {
+					continue
+				}
+				c.oblige("frame:"+ppv.Name(), "", st.pc, tOr(tLe(cnt, "0"), tGe(dst.Off, tAdd(pes.Off, pes.Len))), n.Pos(),
+					"copy into storage shared with parameter "+ppv.Name()+" stays outside the parameter's original contents")
+			}
+		}
+	}
 	// new backing array of the destination
 	nd := c.freshLike("copied", dst).(Sl)
 	nd.Off, nd.Len, nd.Nil = dst.Off, dst.Len, dst.Nil
